@@ -42,6 +42,18 @@ pub struct Cfg {
     pub big_multi_n: usize,
     /// multiplier for the weights of or_b / or_d / or_c / or_i / andor (1 = neutral)
     pub or_boost: u32,
+    /// multiplier for the weight of thresh
+    pub thresh_boost: u32,
+    /// constructive sanity: top-level candidates are re-drawn (up to `top_tries` times) until
+    /// the specification types them with `top_props` (e.g. S | M); a candidate that only lacks
+    /// S is put behind a signature guard `and_v(v:pk(K),X)`
+    pub top_props: T,
+    pub top_tries: usize,
+    /// chance (n out of 10) that a "time" leaf is a constant 0/1 instead (needs allow_const)
+    pub const_chance: usize,
+    /// successive locks of one kind alternate between the height and the time unit (scripts
+    /// with two locks of a kind then mix units)
+    pub alternate_units: bool,
 }
 
 impl Cfg {
@@ -64,6 +76,11 @@ impl Cfg {
             wide_locks: true,
             big_multi_n: 20,
             or_boost: 1,
+            thresh_boost: 1,
+            top_props: 0,
+            top_tries: 1,
+            const_chance: 2,
+            alternate_units: false,
         }
     }
     pub fn sane(ctx: Ctx, size: usize) -> Cfg {
@@ -72,6 +89,8 @@ impl Cfg {
         c.consistent_locks = true;
         c.allow_const = false;
         c.leaf_w = [8, 2, 2];
+        c.top_props = spec::S | spec::M;
+        c.top_tries = 3;
         c
     }
 }
@@ -136,9 +155,9 @@ pub fn pick_key(src: &mut Src, cfg: &Cfg, st: &mut State) -> String {
     key_text(src, cfg, i)
 }
 
-pub const AFTER_HEIGHTS: [u32; 4] = [1, 100, 5000, 499_999_999];
+pub const AFTER_HEIGHTS: [u32; 6] = [1, 2, 3, 100, 5000, 499_999_999];
 pub const AFTER_TIMES: [u32; 3] = [500_000_000, 1_600_000_000, 0x7fff_ffff];
-pub const OLDER_HEIGHTS: [u32; 4] = [1, 2, 144, 65_535];
+pub const OLDER_HEIGHTS: [u32; 5] = [1, 2, 3, 144, 65_535];
 pub const OLDER_TIMES: [u32; 3] = [0x40_0001, 0x40_0090, 0x40_ffff];
 
 fn gen_after(src: &mut Src, cfg: &Cfg, st: &mut State) -> Node {
@@ -153,6 +172,10 @@ fn gen_after(src: &mut Src, cfg: &Cfg, st: &mut State) -> Node {
 }
 fn gen_after_new(src: &mut Src, cfg: &Cfg, st: &mut State) -> Node {
     let mut time = src.chance(1, 3);
+    if cfg.alternate_units {
+        time = !st.abs_time.unwrap_or(time);
+        st.abs_time = Some(time);
+    }
     if cfg.consistent_locks {
         match st.abs_time {
             Some(t) => time = t,
@@ -178,6 +201,10 @@ fn gen_older(src: &mut Src, cfg: &Cfg, st: &mut State) -> Node {
 }
 fn gen_older_new(src: &mut Src, cfg: &Cfg, st: &mut State) -> Node {
     let mut time = src.chance(1, 3);
+    if cfg.alternate_units {
+        time = !st.rel_time.unwrap_or(time);
+        st.rel_time = Some(time);
+    }
     if cfg.consistent_locks {
         match st.rel_time {
             Some(t) => time = t,
@@ -251,7 +278,7 @@ fn leaf_b(src: &mut Src, cfg: &Cfg, st: &mut State) -> Node {
         },
         1 => gen_hash(src),
         _ => {
-            if cfg.allow_const && src.chance(1, 5) {
+            if cfg.allow_const && src.chance(cfg.const_chance.min(10), 10) {
                 if src.bool() {
                     Node::True
                 } else {
@@ -361,7 +388,7 @@ fn gen_try(src: &mut Src, cfg: &Cfg, st: &mut State, want: Want, size: usize) ->
             }
             // weights: leaf, c:K, d:, j:, n:, t:, l:, u:, and_v, and_b, or_b, or_d, or_i, andor, thresh, and_n
             let ob = cfg.or_boost.max(1);
-            let w = [3, 2, dup, 2, 1, 1, ori / 2, ori / 2, 4, 3, 3 * ob, 4 * ob, ori * ob, 3 * ob, 4, 1];
+            let w = [3, 2, dup, 2, 1, 1, ori / 2, ori / 2, 4, 3, 3 * ob, 4 * ob, ori * ob, 3 * ob, 4 * cfg.thresh_boost.max(1), 1];
             match src.weighted(&w) {
                 0 => leaf_b(src, cfg, st),
                 1 => Node::Check(b(gen(src, cfg, st, W_K, size - 1))),
@@ -492,7 +519,31 @@ pub fn gen_ms(src: &mut Src, cfg: &Cfg) -> Node {
 
 pub fn gen_ms_with(src: &mut Src, cfg: &Cfg, st: &mut State) -> Node {
     let size = src.range(1, cfg.size);
-    gen(src, cfg, st, W_B, size)
+    if cfg.top_props == 0 {
+        return gen(src, cfg, st, W_B, size);
+    }
+    let mut last = None;
+    for _ in 0..cfg.top_tries.max(1) {
+        let save_used = st.used.clone();
+        let n = gen(src, cfg, st, W_B, size);
+        let t = spec::type_of(&n, cfg.ctx).unwrap_or(0);
+        if t & cfg.top_props == cfg.top_props {
+            return n;
+        }
+        if (t | spec::S) & cfg.top_props == cfg.top_props {
+            // only the signature requirement is missing: guard the whole script with a key
+            let g = Node::AndV(b(Node::Verify(b(Node::Check(b(Node::PkK(pick_key(src, cfg, st))))))), b(n));
+            let tg = spec::type_of(&g, cfg.ctx).unwrap_or(0);
+            if tg & cfg.top_props == cfg.top_props {
+                return g;
+            }
+            last = Some(g);
+        } else {
+            last = Some(n);
+        }
+        st.used = save_used;
+    }
+    last.unwrap()
 }
 
 pub fn gen_tree(src: &mut Src, cfg: &Cfg, st: &mut State, n_leaves: usize) -> MTree {
@@ -645,7 +696,12 @@ pub fn gen_full_world(src: &mut Src, d: &MDesc) -> World {
             }
         }
     }
-    let preimages: BTreeSet<[u8; 32]> = keys::u().preimages.iter().copied().collect();
+    let mut preimages: BTreeSet<[u8; 32]> = keys::u().preimages.iter().copied().collect();
+    if src.chance(1, 3) {
+        // one preimage unknown to the signer (third parties may still know it)
+        let p = keys::u().preimages[src.below(keys::N_PREIMAGES)];
+        preimages.remove(&p);
+    }
     let (afters, olders) = locks_of(&d.nodes());
     let lock_time = afters.iter().copied().max().unwrap_or(0);
     let sequence = olders.iter().copied().max().unwrap_or(0xffff_fffe);
@@ -803,7 +859,10 @@ pub fn perturb(src: &mut Src, cfg: &Cfg, node: &Node) -> Node {
         let old = std::mem::replace(target, Node::False);
         let mut st = State::new();
         let wrap = |src: &mut Src, x: Node| -> Node {
-            match src.below(7) {
+            match src.below(10) {
+                7 => Node::OrI(b(Node::False), b(x)),
+                8 => Node::OrI(b(x), b(Node::False)),
+                9 => Node::AndV(b(x), b(Node::True)),
                 0 => Node::Alt(b(x)),
                 1 => Node::Swap(b(x)),
                 2 => Node::Check(b(x)),
